@@ -144,3 +144,13 @@ def core_missing(a):
             if s not in a[name]:
                 miss.append((name, s))
     return miss
+
+
+def classify_tandem():
+    P = Parser()
+    out = {}
+    for s in TANDEM_CANDIDATES:
+        t = P.parse(s)
+        if t is not None and t.encoding == s:
+            out[s] = [type(t).__name__, t.category.name]
+    return out
